@@ -10,5 +10,6 @@ def units(tier):
                       bounds="history length %d, 2 objects, 3 handles" % steps)],
                 defines=["STEPS=%d" % steps], heap_max=64, assumptions=["self-move-assignment not exercised", "allocation never fails"]),
             CbmcUnit("refcount_mt", "harness/C08_refcount.cpp", [
-                Entry("vp_main_threads", unwind=3, timeout=900, desc="2 threads each taking 3 references to a shared object and dropping them: exact count, single destruction, all interleavings (SC)")],
-                defines=["STEPS=1"], threads=True, validate=False, native_defines=["VP_NATIVE_BUILD"], assumptions=["sequential consistency, 2 threads"])]
+                Entry("vp_main_threads", unwind=3, timeout=900, desc="two logical threads each taking 3 references to a shared object and dropping them: every access to the counter is atomic "
+                      "or lock-protected (lockset race obligation), exact count afterwards, single destruction")],
+                defines=["STEPS=1"], race=True, validate=False, assumptions=["data-race freedom by the lockset discipline (atomic accesses share the ATOMIC pseudo-lock); more than 2 threads and weak memory outside"])]
